@@ -475,7 +475,7 @@ pub fn name_check(s: &str) -> Option<Failure> {
             }
             // base_name()/extension() stop at the first space, so compare via checksum too
             let want_sum = crate::fsck::sfn_checksum(&want);
-            if !names::same_name_mod_latin1(&got, &want) {
+            if got != want {
                 return Some(Failure {
                     sig: "C18/name-bytes".into(),
                     detail: format!("create_from_str({:?}) gives {:02x?}, expected {:02x?}", s, got, want),
